@@ -1,4 +1,4 @@
-From C17 Require Import Model Model2 Model3 Model4.
+From C17 Require Import Model Model2 Model3 Model4 ModelObj.
 Require Extraction.
 Require Import ExtrOcamlBasic.
 Extraction "model.ml" bint_zero bint_one fromuinteger frominteger touinteger tointeger
@@ -9,5 +9,7 @@ Extraction "model.ml" bint_zero bint_one fromuinteger frominteger touinteger toi
   tobase frombase bn_from_bin bn_from_hex bn_from_dec tohexint tobinint todecint
   tobint bnew fromstring bint_tonumber madd msub mmul mlt mle meq btrunc bfloor bceil
   bfromle bfrombe btole btobe todecsci_int demotefloat canbeintegral
+  oget oset oupd o_new o_tobint o_abs o_inc o_dec o_max o_min o_bin o_bnot o_neg o_bit o_shift o_bwrap o_rot
+  o_udivmod o_idivmod o_tdivmod o_ipow o_upowmod o_tobase o_tointeger o_compress
   lua_tonumber_base lua_tostring_int lua_format_x BINT_WORDBITS
   BINT_SIZE uval sval.
